@@ -8,13 +8,27 @@ Record frame := mkFrame { binds : list (str * val); outer : option positive }.
 
 (** The heap is a finite map from frame ids to frames (a positive trie: O(log n) access, so
     that the extracted model runs long loops); ids are allocated consecutively from 0. *)
+(** the debugger: mal.go's package variables Stepper / skip / outing1 / outing2.  [dbg = None]
+    means no Stepper is installed.  The callback is an oracle: the commands it will return, in
+    order; [dlog] records what it was handed (most recent first). *)
+Inductive dcmd := CNoOp | CNext | CIn | COut | CBad.
+Record dbgst := mkDbg {
+  dskip : bool; douting1 : bool; douting2 : bool;
+  dcmds : list dcmd;
+  dlog : list (val * positive);
+}.
+
 Record state := mkState {
   heap : PositiveMap.t frame; (* env.Env objects *)
   next_env : positive;        (* next free frame id (ids are allocated consecutively from 1) *)
   nframes : nat;              (* number of frames allocated so far (fuel for walking outer chains) *)
   atoms : list val;           (* concurrent.Atom objects, id = index *)
   trace : list val;           (* arguments of the harness builtin trace!, most recent first *)
+  dbg : option dbgst;         (* debugger state, None when no Stepper is installed *)
 }.
+
+Definition set_dbg (st : state) (g : option dbgst) : state :=
+  mkState (heap st) (next_env st) (nframes st) (atoms st) (trace st) g.
 
 (** state-and-outcome monad: on an error the state changes made so far persist, as in Go *)
 Definition M (A : Type) := state -> outcome A * state.
@@ -33,7 +47,7 @@ Notation "'let+' x ':=' c1 'in' c2" := (bindM c1 (fun x => c2))
 
 Definition get_frame (st : state) (id : positive) : option frame := PositiveMap.find id (heap st).
 Definition put_frame (st : state) (id : positive) (f : frame) : state :=
-  mkState (PositiveMap.add id f (heap st)) (next_env st) (nframes st) (atoms st) (trace st).
+  mkState (PositiveMap.add id f (heap st)) (next_env st) (nframes st) (atoms st) (trace st) (dbg st).
 
 Fixpoint update_nth {A} (l : list A) (n : nat) (f : A -> A) : list A :=
   match l, n with
@@ -110,7 +124,7 @@ Definition env_set (env : positive) (key : str) (v : val) : M val :=
 Definition new_env (outer_id : option positive) : M positive :=
   fun st => (Ok (next_env st),
              mkState (PositiveMap.add (next_env st) (mkFrame [] outer_id) (heap st))
-                     (Pos.succ (next_env st)) (S (nframes st)) (atoms st) (trace st)).
+                     (Pos.succ (next_env st)) (S (nframes st)) (atoms st) (trace st) (dbg st)).
 
 (** env._newSubordinateEnvWithBinds (after fix: non-symbol binds and a dangling & are errors).
     The new scope is allocated first (as in Go) even when binding then fails. *)
@@ -152,14 +166,14 @@ Definition new_env_binds (outer_id : positive) (binds_mt exprs_mt : val) : M pos
 
 (** atoms *)
 Definition new_atom (v : val) : M val :=
-  fun st => (Ok (VAtom (length (atoms st))), mkState (heap st) (next_env st) (nframes st) (atoms st ++ [v]) (trace st)).
+  fun st => (Ok (VAtom (length (atoms st))), mkState (heap st) (next_env st) (nframes st) (atoms st ++ [v]) (trace st) (dbg st)).
 Definition atom_get (id : nat) : M val :=
   fun st => match nth_opt (atoms st) id with
             | Some v => (Ok v, st)
             | None => (Panic (s_ "nil atom"), st)
             end.
 Definition atom_set (id : nat) (v : val) : M unit :=
-  fun st => (Ok tt, mkState (heap st) (next_env st) (nframes st) (update_nth (atoms st) id (fun _ => v)) (trace st)).
+  fun st => (Ok tt, mkState (heap st) (next_env st) (nframes st) (update_nth (atoms st) id (fun _ => v)) (trace st) (dbg st)).
 
 Definition trace_push (v : val) : M unit :=
-  fun st => (Ok tt, mkState (heap st) (next_env st) (nframes st) (atoms st) (v :: trace st)).
+  fun st => (Ok tt, mkState (heap st) (next_env st) (nframes st) (atoms st) (v :: trace st) (dbg st)).
